@@ -62,9 +62,9 @@ var props = map[string]*propCfg{
 		Rule:        "a scenario is a seeded (message sequence, reader kind, bufio size, chunking, MaxSize, fault configuration); for each scenario EVERY truncation point 0..len(stream) is executed (torn-tail enumeration is exhaustive per stream), plus seeded read-error / write-fault runs and a two-client pipe run; evaluations = (stream, cut, reader) executions; a case is non-trivial when at least one frame is non-empty or a fault fired, distinct by hash of (frame sizes, reader kind, buffer size, chunking class, MaxSize class, cut class: boundary/in-size/in-body, fault kind)",
 		Assumptions: append([]string{"a conforming Reader returns each byte of the stream exactly once, in order, and reports io.EOF only at the end", "a transient reader error consumes no data"}, commonAssumptions...),
 		Components:  comps("the byte stream between MarshalTo and UnmarshalFrom (chunking reader, faulty writer, blocking pipe)"),
-		Clauses:     "in-order Equal read-back from any conforming Reader; io.EOF exactly at a clean boundary; io.ErrUnexpectedEOF inside a size or body; SizeTooLargeError with correct fields when size > MaxSize; MarshalTo returns the writer's error unchanged; earlier messages unaffected by later reads (C14 protodelim clause)",
-		Probes:      []string{"peek-fast-path", "peek-fallback-readfull", "non-bufio-reader", "two-byte-size", "cut-inside-size-varint", "cut-inside-body", "cut-on-boundary", "size-too-large", "empty-frame", "pipe-writer-crash"},
-		FaultKinds:  []string{"torn-tail", "short-read", "eof-with-data", "read-error", "short-write", "write-error"},
+		Clauses:     "in-order Equal read-back from any conforming Reader; io.EOF exactly at a clean boundary; io.ErrUnexpectedEOF inside a size or body; SizeTooLargeError with correct fields when size > MaxSize; MarshalTo returns the writer's error unchanged; earlier messages unaffected by later reads (C14 protodelim clause); a frame whose body does not parse (stored byte flipped, or a partial message read without AllowPartial) fails or decodes like proto.Unmarshal of that body, is consumed exactly, and the frames after it read back as written",
+		Probes:      []string{"unparseable-frame", "flipped-byte-still-parses", "peek-fast-path", "peek-fallback-readfull", "non-bufio-reader", "two-byte-size", "cut-inside-size-varint", "cut-inside-body", "cut-on-boundary", "size-too-large", "empty-frame", "pipe-writer-crash"},
+		FaultKinds:  []string{"torn-tail", "short-read", "eof-with-data", "read-error", "short-write", "write-error", "flipped-stored-byte"},
 		Quick:       plan{Builds: []buildCfg{{Race: false, Share: 1}}, Secs: 25},
 		Thorough:    plan{Builds: []buildCfg{{Race: false, Share: 3}, {Race: true, Share: 1}}, Secs: 600},
 	},
@@ -176,8 +176,8 @@ func init() {
 		Rule:                      "a scenario is a seeded (type, content); the content is realised as 10-16 messages through different histories (same construction under other map hash seeds, Clone, Merge, eager decode, lazy decode unexpanded and expanded, decode from a legal non-minimal encoding, field-by-field rebuild in shuffled order with set-clear-set / delete-reinsert / grow-past-8-and-shrink detours, dynamicpb decode / rebuild / Clone), each marshalled with Deterministic under three seeds of the Go map iteration order, and for some scenarios in 2-3 re-executions of the worker binary with other process-wide map seeds; evaluations = deterministic marshals compared; non-trivial = scenario produced a non-empty encoding; distinct by hash of (type, shape parameters, reference encoding)",
 		Assumptions:               append([]string{"encodings are compared only among messages of the same concrete type (generated type, or dynamicpb over the same descriptor)", "every Go map in the process is behind the runtime seam (pointer-keyed maps with more than 8 entries excepted, none occur)"}, commonAssumptions...),
 		Components:                comps("process boundary: os/exec of the same worker binary"),
-		Clauses:                   "first sentence: same content => identical Deterministic bytes, across clones, map insertion orders, field-setting orders, repeated marshals, map iteration orders and processes of the same binary",
-		NotDecided:                "second sentence (identical deterministic bytes => proto.Equal): a pure input property, outside this technique",
+		Clauses:                   "first sentence: same content => identical Deterministic bytes, across clones, map insertion orders, field-setting orders, repeated marshals, map iteration orders and processes of the same binary; second sentence over those histories (identical encodings => Equal, both argument orders, whatever empty lists/maps a history left behind)",
+		NotDecided:                "second sentence for arbitrary unrelated pairs of inputs; it IS checked over the construction histories of one content: variants seen to encode identically must be proto.Equal in both argument orders",
 		Probes:                    []string{"variants-compared", "lazy-unexpanded-variants"},
 		FaultKinds:                []string{"map-order", "process-restart", "denormalised-wire"},
 		Quick:                     plan{Builds: []buildCfg{{Race: false, Share: 1}}, Secs: 25},
